@@ -281,7 +281,7 @@ def strategy(thorough):
 def run_shard(ctx):
     stats = core.Stats()
     thorough = ctx.tier == "thorough"
-    n = 400 if thorough else 90
+    n = 3000 if thorough else 90
     core.hyp_search(strategy(thorough), lambda c: execute(c, ctx.scratch), stats, max_examples=n,
                     seed=core.hash64(ctx.seed, ID, ctx.shard), findings=ctx.findings,
                     deadline_s=(ctx.deadline - time.time()) if ctx.deadline else None)
